@@ -147,11 +147,20 @@ def assign_registers(data: CodeData, code: list[IC10Instruction]):
         blocked_registers = set()
 
         symbols = []
+        first_with_register = {}
         for symbol in data.symbols[scope].values():
             # if not symbol.code_expr in tokens:
             #     continue
             if symbol.is_register and symbol in used_symbols:
                 symbols.append(symbol)
+                first = first_with_register.setdefault(symbol.code_expr, symbol)
+                if first is not symbol:
+                    # a name that shares the register of another one (b = a): the register
+                    # stays reserved until the last use of either name
+                    first._lifetime = range(
+                        min(first.lifetime.start, symbol.lifetime.start),
+                        max(first.lifetime.stop, symbol.lifetime.stop),
+                    )
 
         assign_colors(symbols)
         if _verif_on():
